@@ -106,6 +106,23 @@ inline bool for_each_gp(const Args& a, Reporter& rep, F f) {
     rep.bounds_completed.push_back(scope + " k=" + std::to_string(k) + " n=3.." + std::to_string(n2));
     return true;
   }
+  if (scope == "S5") {
+    // K nested squares of one orientation (winding number K at the centre) next to one clip triangle, K round 128 and 256: winding
+    // counts beyond the range of a byte. Seed-independent.
+    for (int K : {127, 128, 129, 255, 256, 257}) {
+      if (!rep.mine(idx++)) continue;
+      if (rep.out_of_time()) return false;
+      Paths S; for (int i = 1; i <= K; ++i) { i64 h = 8 * i; S.push_back(Path{{-h, -h}, {h, -h}, {h, h}, {-h, h}}); }
+      i64 R = 8 * (i64)K;
+      Paths C{Path{{R + 40, -R - 45}, {R + 379, 7}, {R + 73, R / 2 + 203}}};   // a clip triangle beside the squares (no crossings: the rings alone carry the winding numbers)
+      rep.add("inputs_enumerated");
+      Paths all = S; all.push_back(C[0]);
+      if (!general_position(all)) { rep.add("skipped_not_general_position"); continue; }
+      GpInput in{S, C, nullptr, scope}; f(in);
+    }
+    rep.bounds_completed.push_back("S5 nested squares K=127,128,129,255,256,257");
+    return true;
+  }
   if (scope == "S4") {
     // one subject triangle + THREE clip triangles: every partition of 9 clip-board points into three triangles, every orientation
     // assignment, against every subject triangle; enlarged board (x3) for clearance. Reaches solution rings that touch in rounded
